@@ -265,7 +265,20 @@ func runC14(c *Ctx) {
 	if f := p.LookupFunc(relPkg(pkgEncoder), "TextMarshalerHookFunc"); f != nil {
 		fn := p.SSAFunc(f)
 		ok := false
-		for _, g := range fn.AnonFuncs {
+		// the hook is whatever function the constructor returns: a closure or a named function
+		hookFns := append([]*ssa.Function{}, fn.AnonFuncs...)
+		for _, g := range returnedFuncs(fn, 2) {
+			dup := false
+			for _, h := range hookFns {
+				if h == g {
+					dup = true
+				}
+			}
+			if !dup {
+				hookFns = append(hookFns, g)
+			}
+		}
+		for _, g := range hookFns {
 			var ta *ssa.TypeAssert
 			allInstrs(g, func(in ssa.Instruction) {
 				if t, isTA := in.(*ssa.TypeAssert); isTA && t.CommaOk {
